@@ -126,6 +126,10 @@ type fsOpener struct {
 	inner  *dictionary.FileSystemOpener
 	dir    string
 	events []string
+	// handles open right now; beyond 200 the opener refuses (unbounded recursion would otherwise run until the
+	// process has no descriptors or no stack left) and the observation is DEPTH-EXCEEDED
+	nopen    int
+	exceeded bool
 }
 
 func (o *fsOpener) plain(name string) string {
@@ -138,15 +142,24 @@ func (o *fsOpener) plain(name string) string {
 
 type fsFile struct {
 	dictionary.File
-	op *fsOpener
+	op     *fsOpener
+	closed bool
 }
 
 func (f *fsFile) Close() error {
 	f.op.events = append(f.op.events, "c"+hx([]byte(f.op.plain(f.File.Name()))))
+	if !f.closed {
+		f.closed = true
+		f.op.nopen--
+	}
 	return f.File.Close()
 }
 
 func (o *fsOpener) OpenFile(name string) (dictionary.File, error) {
+	if o.nopen >= 200 {
+		o.exceeded = true
+		return nil, &memOpenError{name}
+	}
 	f, err := o.inner.OpenFile(name)
 	if err != nil {
 		// (only names made of plain characters are ever re-spelled; any other name is reported as written)
@@ -159,7 +172,8 @@ func (o *fsOpener) OpenFile(name string) (dictionary.File, error) {
 		return nil, &memOpenError{name}
 	}
 	o.events = append(o.events, "o"+hx([]byte(o.plain(f.Name()))))
-	return &fsFile{f, o}, nil
+	o.nopen++
+	return &fsFile{File: f, op: o}, nil
 }
 
 var simpleName = regexp.MustCompile(`^[A-Za-z0-9_][A-Za-z0-9_.-]*$`)
@@ -255,6 +269,9 @@ func evalC15FS(args []string, withDirs bool) string {
 	p := dictionary.Parser{Opener: o, IgnoreIdenticalAttributes: args[2] == "1"}
 	before := openFds()
 	d, err := p.ParseFile(root)
+	if o.exceeded {
+		return "DEPTH-EXCEEDED"
+	}
 	left := 0
 	for fd := range openFds() {
 		if !before[fd] {
